@@ -96,7 +96,7 @@ PoolChecks(e, st, P, u, tiph) ==
         known == {id \in ids : id \in DOMAIN P}
         inputs(t) == {t.ins[i].o : i \in {j \in DOMAIN t.ins : ~IsZero(t.ins[j].amt)}}
         shared == \E a, b \in known : a # b /\ inputs(P[a]) \cap inputs(P[b]) # {}
-        stale == {id \in known : ~TxValid(u, P[id], tiph + 1, G)}
+        stale == {id \in known : ~TxValid(u, P[id], tiph, G)}
         allin == UNION {inputs(P[id]) : id \in known}
         locked == {n \in Rng(st.reserved) : n \notin allin /\ n \in Names(u)}
     IN (IF shared THEN {Bad(e, "C14", "two-pooled-transactions-share-an-input")} ELSE {})
@@ -147,7 +147,7 @@ OnBlock(e) ==
 OnSubmit(e) ==
     LET t == Tx(e.tx)
         G == env.g
-        v == TxViolations(obs.utxo, t, obs.tiph + 1, G)
+        v == TxViolations(obs.utxo, t, obs.tiph, G)   \* window judged at the current tip
         inputs(x) == {x.ins[i].o : i \in {j \in DOMAIN x.ins : ~IsZero(x.ins[j].amt)}}
         conflict == \E id \in DOMAIN pool : inputs(pool[id]) \cap inputs(t) # {}
         pooled == e.res = "Pooled"
@@ -157,17 +157,20 @@ OnSubmit(e) ==
             \cup (IF pooled THEN {Bad(e, PropOf(x), "pool-admitted:" \o x) : x \in v} ELSE {})
             \cup (IF pooled /\ conflict THEN {Bad(e, "C14", "pool-admitted-conflicting-transaction")} ELSE {})
             \cup (IF ~pooled /\ ~IsPanic(e.res) /\ v = {} /\ ~conflict /\ t.id \notin DOMAIN pool
-                     /\ e.tag # "dup"
+                     /\ e.tag # "dup" /\ t.type = TNormal
                   THEN {Bad(e, "C14", "valid-unconflicted-transaction-refused")} ELSE {})
             \cup (IF IsPanic(e.res) THEN {Bad(e, "C11", "panic")} ELSE {})
             \cup (IF IsPanic(e.res) THEN {} ELSE PoolChecks(e, e.st, P2, obs.utxo, obs.tiph))
             \cup (IF IsPanic(e.res) THEN {} ELSE WalletChecks(e, e.st, obs.utxo, obs.tiph))
        /\ UNCHANGED <<B, U, obs, env>>
 
+(* pool entries the harness did not submit (the node's own staking transaction) are shown as "?..." *)
+UserIds(p) == {x \in Rng(p) : SubSeq(x, 1, 1) # "?"}
+
 OnBundle(e) ==  \* the producer declined or panicked: pool must be untouched (C14)
     /\ bad' = bad
          \cup (IF IsPanic(e.res) THEN {Bad(e, "C07", "producer-panic")} ELSE {})
-         \cup (IF e.res = "Declined" /\ (e.pre.pool # e.st.pool \/ e.pre.reserved # e.st.reserved)
+         \cup (IF e.res = "Declined" /\ (UserIds(e.pre.pool) # UserIds(e.st.pool) \/ e.pre.reserved # e.st.reserved)
                THEN {Bad(e, "C14", "declined-bundle-changed-pool")} ELSE {})
     /\ UNCHANGED <<B, U, obs, pool, env>>
 
